@@ -131,8 +131,12 @@ def loads(s: str, parser=None, grammar=None, decoder=None, **kwargs):
     """
     if isinstance(s, bytes):
         # Someone passed us an old-style bytes sequence.  Although it isn't
-        # a string, we can deal with it:
-        s = s.decode()
+        # a string, we can deal with it (and if an attached label is
+        # followed by bytes that are not text, with its decodable part):
+        try:
+            s = s.decode()
+        except UnicodeDecodeError:
+            s = decode_by_char(io.BytesIO(s))
 
     if parser is None:
         parser = OmniParser(
